@@ -203,6 +203,7 @@ func addProtoFunctions(fm template.FuncMap, protoFile *protogen.File, names spec
 	fm["getImportPrefix"] = getImportPrefix(protoFile, goPackageForFile)
 	fm["mapFieldGoType"] = mapFieldGoType(protoFile, goPackageForFile)
 	fm["hasRequiredFields"] = hasRequiredFields(protoFile)
+	fm["hasImplicitFloatFields"] = hasImplicitFloatFields(protoFile)
 	fm["getSafeFieldName"] = getSafeFieldName(names)
 	return fm
 }
@@ -436,6 +437,34 @@ func msgHasRequiredField(m *protogen.Message) bool {
 		}
 	}
 	return false
+}
+
+// hasImplicitFloatFields returns true if the specified message has a singular float or double field
+// without explicit presence (proto3, not optional, not in a oneof). Such a field is set unless it holds
+// +0, which the generated code tests through math.Float32bits/Float64bits so that -0 is not lost.
+//
+// If m is nil, this function returns true if *any* message in the Protobuf file has such a field.
+func hasImplicitFloatFields(protoFile *protogen.File) func(*protogen.Message) bool {
+	msgHasOne := func(m *protogen.Message) bool {
+		for _, f := range m.Fields {
+			k := f.Desc.Kind()
+			if (k == protoreflect.FloatKind || k == protoreflect.DoubleKind) && !f.Desc.HasPresence() && !f.Desc.IsList() && !f.Desc.IsMap() {
+				return true
+			}
+		}
+		return false
+	}
+	return func(m *protogen.Message) bool {
+		if m != nil {
+			return msgHasOne(m)
+		}
+		for _, mm := range allMessages(protoFile)() {
+			if msgHasOne(mm) {
+				return true
+			}
+		}
+		return false
+	}
 }
 
 // hasRequiredFields returns true if at least one field in the specified message is marked required
